@@ -93,6 +93,10 @@ func runRapid(t *testing.T, checks int, salt uint64, prop func(*rapid.T)) {
 func guard(f func()) (fail *evid.Fail) {
 	defer func() {
 		if r := recover(); r != nil {
+			if _, hang := r.(hangPanic); hang {
+				fail = evid.F("nontermination:"+repoFrame(), "scanner-call budget exhausted: the tokenizer loops without consuming input")
+				return
+			}
 			fail = evid.F("panic:"+repoFrame(), "panic: %v", r)
 		}
 	}()
